@@ -28,7 +28,7 @@ def thresholds(tier):
 
 def knobs_for(rng):
   return {"depth": rng.choice([0, 1, 1, 2]), "max_children": rng.choice([1, 2]), "p_ff": rng.choice([0.6, 0.8, 0.95]),
-          "p_split": 0.2, "p_struct": 0.3, "max_sigs": rng.choice([4, 6, 8]), "expr_depth": 2, "p_if": 0.5, "reset_ff": 0.5, "p_vsl": rng.choice([0, 0.2]), "p_vfunc": rng.choice([0, 0.4]), "p_ff_child": rng.choice([0, 0.3]), "p_func": rng.choice([0, 0.3]), "p_shadow": 0.3, "p_subclass": rng.choice([0, 0.5]), "neg_reset": rng.random() < 0.5}
+          "p_split": 0.2, "p_struct": 0.3, "max_sigs": rng.choice([4, 6, 8]), "expr_depth": 2, "p_if": 0.5, "reset_ff": 0.5, "p_vsl": rng.choice([0, 0.2]), "p_vfunc": rng.choice([0, 0.4]), "p_ff_child": rng.choice([0, 0.3]), "p_func": rng.choice([0, 0.3]), "p_shadow": 0.3, "p_digit_names": rng.choice([0, 0.6]), "p_subclass": rng.choice([0, 0.5]), "neg_reset": rng.random() < 0.5}
 
 
 # ---------------------------------------------------------------------------
